@@ -88,3 +88,42 @@ claim("C19",
       "the PDU sequence number and the transaction id.",
       "trusted: as C10; uniqueness of ids additionally rests on the provider returning fresh values (user-supplied object)",
       "DESIGN.md section 2 C19")
+claim("C05",
+      "who-may-call, provenance (origin-term) and typestate rules over every filestore event of the destination handler's abstract transition system",
+      "Decides the 'nothing else is touched' clause and the write discipline: every path-taking filestore call targets the parameter block's resolved destination name; that name is "
+      "built only from the Metadata PDU's destination/source names with pure path operators behind is_directory(same path); no filestore mutation while Metadata is missing; "
+      "write_data receives the File Data PDU's own data and offset; Metadata acceptance creates or truncates exactly once (truncate iff the file exists); delete_file only when "
+      "cancelled with the disposition flag set and incomplete data. Byte content after overlapping writes and zero-filled gaps is write_data's semantics and is not decided.",
+      "trusted: as C10; the filestore implementation (C17 for the native one)",
+      "DESIGN.md section 2 C05")
+claim("C12",
+      "decision table of cancel_request, origin-term and must-occur rules over the cancel and EOF(cancel) edges of both abstract transition systems, forward reachability after a sender cancel",
+      "Decides the return table (False without effect when idle or for a foreign id, True with the cancel effects otherwise; no constant-false cross-enum comparison on any path), "
+      "the sender's reaction (exactly one EOF with Cancel-Request-Received whose size and checksum length are the progress; no state reachable afterwards in that transaction builds "
+      "a new File Data PDU), and the receiver's (CANCELED with the condition and the local entity id for Cancel.request, the EOF's condition and the remote entity id for EOF(cancel); "
+      "Finished PDU iff closure or acknowledged mode, carrying what was indicated).",
+      "trusted: as C10",
+      "DESIGN.md section 2 C12")
+claim("C01",
+      "gate analysis: path-sensitive must-precede rules over the DATA_COMPLETE stores and completion-step entries of the destination ATS; origin-term rules over Metadata/EOF construction at the source",
+      "Decides the integrity gate, not the bytes: DATA_COMPLETE is stored only behind equality of the filestore's checksum (Metadata's type, destination file, progress) with the "
+      "EOF's checksum, or for the NULL type, or metadata-only; in acknowledged mode the completion step is entered only with nothing recorded missing (or cancelled / metadata-only); "
+      "both ends hash the same thing; the sender fabricates a success report only without closure in unacknowledged mode. Byte identity itself (tracker exactness, filestore writes, "
+      "CRC collisions) is not decided.",
+      "trusted: as C10, plus C18 (tracker exactness) and C17 (filestore writes) for the step from the gate to the bytes",
+      "DESIGN.md section 2 C01")
+claim("C04",
+      "typestate / counter-discipline rules over timer, counter, fault and PDU events of the abstract transition systems with a linear normal form for the limit comparison; backward reachability of idle over packet-less edges; sibling cross-check",
+      "Decides the premises of the exactness argument for the three timer-driven procedures (count zero at timer creation; incremented only on an observed expiry below the limit, "
+      "together with re-arming and re-sending; the single count/limit comparison has the normal form count + 1 - limit >= 0 or == 0, so the fault fires exactly at the configured "
+      "expiry), that accepted missing data resets count and timer, and - definitely, because the ATS over-approximates - whether idle is reachable with a silent peer from every "
+      "reachable abstract state (documented waits exempt). Wall-clock behaviour of Countdown is not decided.",
+      "trusted: as C10; Countdown (spacepackets)",
+      "DESIGN.md section 2 C04")
+claim("C13",
+      "the same counter-discipline rules for the check-limit procedure plus entry/typestate rules over check-timer events of both abstract transition systems",
+      "Decides entry into check-limit handling (unacknowledged, ignored checksum failure, timer with RECEIVING, zero count), that File Data and EOF are still consumed in that step, "
+      "re-verification on every expiry with exactly one of (completion, count, limit fault), the exact limit comparison, the sender's check timer (SENDING, with the EOF, expiry "
+      "while awaiting Finished declares the fault) and that the default table ignores checksum failures. That late data yields an identical file is not decided.",
+      "trusted: as C10",
+      "DESIGN.md section 2 C13")
